@@ -6,7 +6,8 @@ Liveness (`malt/pyct/static_analysis/liveness.py`), a backward may-analysis:
   Analyzer.visit_node:   live_out = ⋃ in_[s], s ∈ node.next
                          gen  = scope.read            kill = scope.modified ∪ scope.deleted
                          live_in = gen ∪ (live_out − kill)
-                                   ∪ ⋃ { fn_scope.read − fn_scope.bound | fn ∈ DEFINED_FNS_IN(node), fn not a lambda }
+                                   ∪ ⋃ { fn_scope.read − (fn_scope.bound − fn_scope.nonlocals − fn_scope.globals)
+                                       | fn ∈ DEFINED_FNS_IN(node), fn not a lambda }      (since /repo ccf3d44)
                          no Scope (pass/break/continue):  live_in = live_out
 
 In the orientation of `Dataflow.lean`: edges reversed, `A = live_out`, `B = live_in`; the closure
@@ -14,9 +15,15 @@ term is not subject to `kill`, so it is part of `gen`.
 -/
 namespace Malt.Analysis
 
-/-- `fn_scope.read − fn_scope.bound` of one reaching function; lambdas are skipped (`lamba_check`) -/
+/-- a name the function binds for itself: in `bound`, and not merely declared nonlocal / global (those refer to the
+enclosing variable) -/
+def FnInfo.ownBound (f : FnInfo) (v : Nat) : Bool :=
+  f.bound.contains v && !f.nonlocals.contains v && !f.globals.contains v
+
+/-- `fn_scope.read − (fn_scope.bound − fn_scope.nonlocals − fn_scope.globals)` of one reaching function; lambdas are
+skipped (`lamba_check`) -/
 def fnFreeOf (f : FnInfo) : List Nat :=
-  if f.isLambda then [] else f.read.filter (fun v => !f.bound.contains v)
+  if f.isLambda then [] else f.read.filter (fun v => !f.ownBound v)
 
 /-- the closure term of `visit_node`, from the node's real `DEFINED_FNS_IN` annotation -/
 def fnFree (D : CfgData) (n : Nat) : List Nat :=
@@ -68,7 +75,7 @@ theorem live_sound (E : List (Nat × Nat)) (V : List Nat) (F : Flow Nat) (IN OUT
 /-- the closure term at node `n` contains `v` on behalf of function `h` -/
 def coveredBy (D : CfgData) (n h v : Nat) : Bool :=
   (D.fnsIn n).contains h && match D.fnOf h with
-    | some fi => !fi.isLambda && fi.read.contains v && !fi.bound.contains v
+    | some fi => !fi.isLambda && fi.read.contains v && !fi.ownBound v
     | none => false
 
 /-- walk the lexical chain reader → enclosing function → … (stopping at the analysed function itself) -/
@@ -78,7 +85,7 @@ def onChain (D : CfgData) (p : Nat → Bool) : Nat → Nat → Bool
       p g || (match D.fnOf g with | some fi => onChain D p fuel fi.parent | none => false)
 
 /-- the read of `v` by the local function `g` (possibly nested deeper) is covered by the closure term at node `n`:
-`g` or a function enclosing it reaches `n`, is not a lambda, and has `v` in `read − bound` -/
+`g` or a function enclosing it reaches `n`, is not a lambda, reads `v` and does not bind it for itself -/
 def closureReadCovered (D : CfgData) (n g v : Nat) : Bool :=
   onChain D (fun h => coveredBy D n h v) (D.fns.length + 1) g
 
@@ -91,8 +98,7 @@ theorem coveredBy_spec (D : CfgData) (n h v : Nat) (hc : coveredBy D n h v = tru
   | none => rw [hf] at h2; cases h2
   | some fi =>
     rw [hf] at h2
-    simp only [Bool.and_eq_true, Bool.not_eq_true', decide_eq_true_eq,
-      decide_eq_false_iff_not] at h2
+    simp only [Bool.and_eq_true, Bool.not_eq_true', decide_eq_true_eq] at h2
     obtain ⟨⟨hl, hr⟩, hb⟩ := h2
     simp [fnFreeOf, hl, List.mem_filter, hr, hb]
 
@@ -115,8 +121,10 @@ theorem closureReadCovered_spec (D : CfgData) (n g v : Nat) (h : closureReadCove
   obtain ⟨x, hx⟩ := onChain_spec D _ _ _ h
   exact coveredBy_spec D n x v hx
 
-/-- finding class (b): the reading function, or a local function enclosing it, declares `v` nonlocal, which puts `v`
-into its `bound` set, so `read − bound` drops it -/
+/-- what is left of finding class (b) after /repo ccf3d44: the reading function, or a local function enclosing it, declares
+`v` nonlocal, and still the read is not covered — `Scope.finalize` of an isolated scope passes only `read − bound` up to the
+enclosing function, so a `nonlocal v` declared in a function nested BELOW the reaching one never shows up in the reaching
+function's `read` set (the class predicate is this one together with `closureReadCovered = false`) -/
 def nonlocalInReader (D : CfgData) (g v : Nat) : Bool :=
   onChain D (fun h => match D.fnOf h with | some fi => fi.nonlocals.contains v | none => false) (D.fns.length + 1) g
 
